@@ -311,6 +311,28 @@ def run(ctx):
         elif n.get("k") == "call" and (n.get("fn") or "") == "memcpy":
             a = arg_nodes(n)
             writes.append((codec.norm_linear(env["pos"]), expr_str(core(a[1]))[:30], codec.norm_linear(codec.linear(a[2], env))))
+        elif n.get("k") == "call" and n.get("op") == "()" and "obj" in n and core(n.child("obj")) is not None and core(n.child("obj")).get("k") == "ref":
+            # `appendBytes(ptr, len)`: a local lambda that copies to encodedKey[pos] and advances pos by the length it was given
+            lam = None
+            for d in c3.nodes:
+                if d.get("k") == "decl":
+                    for v in d.get("vars", []):
+                        if v.get("did") == core(n.child("obj")).get("did") and "init" in v:
+                            for x in c3.nodes[v["init"]].walk():
+                                if x.get("k") == "lambda":
+                                    lam = prog.lambda_fn(x)
+            a = arg_nodes(n)
+            if lam is not None and len(lam.params) == 2 and len(a) == 2:
+                mc_ = lam.calls("memcpy")
+                adv = [x for x in lam.nodes if x.get("k") == "bin" and x["op"] == "+=" and expr_str(x.child("l")) == "pos" and expr_str(core(x.child("r"))) == lam.params[1]["n"]]
+                if len(mc_) == 1 and adv and "encodedKey[" in expr_str(arg_nodes(mc_[0])[0]) and "pos" in expr_str(arg_nodes(mc_[0])[0]) and \
+                        expr_str(core(arg_nodes(mc_[0])[1])) == lam.params[0]["n"] and expr_str(core(arg_nodes(mc_[0])[2])) == lam.params[1]["n"]:
+                    ln_ = codec.linear(a[1], env)
+                    writes.append((codec.norm_linear(env["pos"]), expr_str(core(a[0]))[:30], codec.norm_linear(ln_)))
+                    cur = dict(env["pos"])
+                    for s_, cf in (ln_ or {}).items():
+                        cur[s_] = cur.get(s_, 0) + cf
+                    env["pos"] = cur
         elif n.get("k") == "bin" and n["op"] == "=" and "encodedKey[" in expr_str(n.child("l")).replace(" ", "") and "kindCode" in expr_str(n.child("r")):
             writes.append((codec.norm_linear(env["pos"]), "kindCode", (("1", 1),)))
         elif n.get("k") == "bin" and n["op"] == "=" and "encodedKey[" in expr_str(n.child("l")).replace(" ", "") and "nameSize" in expr_str(n.child("r")) and ">>" in expr_str(n.child("r")):
